@@ -138,6 +138,8 @@ def check_history(case, ctx: Ctx):
             w = op[2]
             if w is not None and len(op) > 3 and op[3] == "np_int8" and w > 127:
                 w = 100  # (does not fit into the scalar type itself)
+            if w == 300 and not (len(op) > 3 and op[3] in ("np_float16", "np_float32") and before_dtype != np.float16):
+                w = 2  # (300 is for narrow float scalars whose square leaves float16, booked into a wider histogram)
             if w is not None and len(op) > 3 and op[3]:
                 # the weight as a numpy scalar of another width (as when looping over a float32 / int16 weights array)
                 w = {"np_float32": np.float32, "np_float16": np.float16, "np_float64": np.float64, "np_longdouble": np.longdouble,
@@ -382,7 +384,7 @@ def one_op(draw):
         return [name, draw(st.sampled_from(DTYPES[:6])), draw(st.integers(-4, 6)), draw(st.booleans())]
     ts = st.lists(st.floats(0, 0.999), min_size=2, max_size=2)
     if name == "fill":
-        return [name, draw(ts), draw(st.sampled_from([None, None, 1, 2, 0.5, 1.5, 2.0, 0.25, 200, 100])),
+        return [name, draw(ts), draw(st.sampled_from([None, None, 1, 2, 0.5, 1.5, 2.0, 0.25, 200, 100, 300])),
                 draw(st.sampled_from([None, None, "np_float32", "np_float16", "np_float64", "np_longdouble", "np_int32", "np_int16", "np_int8"]))]
     if name == "fill_n":
         return [name, draw(st.lists(ts, max_size=4)), draw(st.sampled_from(["none", "int", "float", "float16"]))]
